@@ -1,0 +1,119 @@
+//! Verification hooks. Compiled only with `--cfg uflow_verif`; nothing here is reachable from a
+//! normal build. Provides (a) public paths to otherwise crate-private items, (b) a virtual clock
+//! which shadows `std::time` at the `Instant::now()` call sites, and (c) a deterministic random
+//! source which shadows the `rand` crate at the `rand::random()` call sites.
+#![allow(missing_docs)]
+
+pub mod frame {
+    pub use crate::frame::*;
+    pub use crate::frame::serial::Serialize;
+    pub use crate::frame::serial::DataFrameBuilder;
+    pub use crate::frame::serial::AckFrameBuilder;
+    pub use crate::frame::serial::verif_crc_compute as crc_compute;
+    pub use crate::frame::serial::verif_crc_extend as crc_extend;
+}
+
+pub mod packet_id {
+    pub use crate::packet_id::*;
+}
+
+pub mod half_connection {
+    pub use crate::half_connection::Config;
+    pub use crate::half_connection::FrameSink;
+    pub use crate::half_connection::HalfConnection;
+    pub use crate::half_connection::PacketSink;
+    pub use crate::half_connection::verif_exports::*;
+}
+
+pub mod vtime {
+    use std::cell::Cell;
+    use std::time::Duration;
+
+    thread_local! {
+        static NOW_NS: Cell<u64> = Cell::new(0);
+    }
+
+    /// Sets the virtual clock of the calling thread, in nanoseconds.
+    pub fn set_ns(ns: u64) {
+        NOW_NS.with(|c| c.set(ns));
+    }
+
+    pub fn get_ns() -> u64 {
+        NOW_NS.with(|c| c.get())
+    }
+
+    #[derive(Clone,Copy,Debug,PartialEq,Eq,PartialOrd,Ord)]
+    pub struct Instant(u64);
+
+    impl Instant {
+        pub fn now() -> Self {
+            Instant(get_ns())
+        }
+    }
+
+    impl std::ops::Sub for Instant {
+        type Output = Duration;
+        fn sub(self, other: Instant) -> Duration {
+            // std::time::Instant saturates to zero as well
+            Duration::from_nanos(self.0.saturating_sub(other.0))
+        }
+    }
+}
+
+pub mod vrand {
+    use std::cell::RefCell;
+    use std::collections::VecDeque;
+
+    struct Source {
+        fifo: VecDeque<u64>,
+        state: u64,
+    }
+
+    thread_local! {
+        static SOURCE: RefCell<Source> = RefCell::new(Source { fifo: VecDeque::new(), state: 0x9E3779B97F4A7C15 });
+    }
+
+    /// Queues a value to be returned by a later call to `random()` on this thread.
+    pub fn feed(value: u64) {
+        SOURCE.with(|s| s.borrow_mut().fifo.push_back(value));
+    }
+
+    /// Discards queued values and reseeds the fallback generator.
+    pub fn reset(seed: u64) {
+        SOURCE.with(|s| {
+            let mut s = s.borrow_mut();
+            s.fifo.clear();
+            s.state = seed;
+        });
+    }
+
+    fn next_u64() -> u64 {
+        SOURCE.with(|s| {
+            let mut s = s.borrow_mut();
+            if let Some(v) = s.fifo.pop_front() {
+                return v;
+            }
+            // splitmix64
+            s.state = s.state.wrapping_add(0x9E3779B97F4A7C15);
+            let mut z = s.state;
+            z = (z ^ (z >> 30)).wrapping_mul(0xBF58476D1CE4E5B9);
+            z = (z ^ (z >> 27)).wrapping_mul(0x94D049BB133111EB);
+            z ^ (z >> 31)
+        })
+    }
+
+    pub trait VRand {
+        fn from_u64(v: u64) -> Self;
+    }
+
+    impl VRand for bool { fn from_u64(v: u64) -> Self { v & 1 != 0 } }
+    impl VRand for u8 { fn from_u64(v: u64) -> Self { v as u8 } }
+    impl VRand for u16 { fn from_u64(v: u64) -> Self { v as u16 } }
+    impl VRand for u32 { fn from_u64(v: u64) -> Self { v as u32 } }
+    impl VRand for u64 { fn from_u64(v: u64) -> Self { v } }
+    impl VRand for usize { fn from_u64(v: u64) -> Self { v as usize } }
+
+    pub fn random<T: VRand>() -> T {
+        T::from_u64(next_u64())
+    }
+}
